@@ -742,13 +742,17 @@ fn do_call(sess: &mut Sess, name: &str, args: &[Sexp]) -> Option<Step> {
             let nm = n.as_bytes()?;
             let json = j.as_bytes()?;
             let sl = sess.ctxs[slot(c)?].as_mut()?;
+            // the caller's own copy of the JSON text, overwritten and freed right after the call
+            let mut owned: Vec<u8> = json.to_vec();
             let ok = ffi::wirefilter_add_json_value_to_execution_context(
                 &mut sl.c,
                 nm.as_ptr().cast(),
                 nm.len(),
-                json.as_ptr(),
-                json.len(),
+                owned.as_ptr(),
+                owned.len(),
             );
+            owned.iter_mut().for_each(|b| *b = b'X');
+            drop(owned);
             let r = match utf8_shadow(nm) {
                 Err(Rk::Fail(m)) => Rk::Fail(m),
                 Err(_) => return None,
@@ -795,6 +799,11 @@ fn do_call(sess: &mut Sess, name: &str, args: &[Sexp]) -> Option<Step> {
             let ok = ffi::wirefilter_deserialize_json_to_execution_context(&mut sl.c, json.as_ptr(), json.len());
             let rc = &mut sl.rust;
             let r = shadow(|| rc.deserialize(&mut serde_json::Deserializer::from_reader(json.as_slice())));
+            // a C caller owns its buffer: it is overwritten and freed as soon as the call has returned, and the
+            // context must not depend on it any more
+            let mut json = json;
+            json.iter_mut().for_each(|b| *b = b'X');
+            drop(json);
             let mut st = with_shadow(step(Sexp::boolean(ok), bool_kind(ok)), &r);
             if ctx_json(sl.c.deref().deref()) != ctx_json(&sl.rust) {
                 st.differs = Some("ctx-state");
